@@ -731,16 +731,63 @@ def st_num(v):
 
 _PATH_TARGETS = [None] * NPATH
 
+# The dotted-path form of a callback points into a SUBMODULE of a package that nothing else imports:
+# <dir>/c13pkg_<pid>/__init__.py, /sub/__init__.py (both empty) and /sub/mod.py with the callables cb_<n>, created at
+# run time.  The harness never imports the submodules itself and forgets them before every case, so the library's
+# resolve_callable has to perform the import of 'c13pkg_<pid>.sub.mod' on its own.
+_MOD_SRC = '''import sys
 
-def _mk_path(i):
+
+def _mk(i):
     def f(*a, **k):
-        return _PATH_TARGETS[i](*a, **k)
-    f.__name__ = 'path_fn_%d' % i
+        return sys.modules['c13']._PATH_TARGETS[i](*a, **k)
+    f.__name__ = 'cb_%d' % i
     return f
 
 
-for _i in range(NPATH):
-    globals()['path_fn_%d' % _i] = _mk_path(_i)
+for _i in range({n}):
+    globals()['cb_%d' % _i] = _mk(_i)
+'''
+
+
+def ensure_pkg():
+    """name of the temporary package (created once by the first process that needs it, inherited by the workers
+    through the environment, removed by its creator at exit)"""
+    import atexit
+    import importlib
+    import os
+    import shutil
+    import tempfile
+    root = os.environ.get('VERIF_C13_PKG_ROOT')
+    name = os.environ.get('VERIF_C13_PKG_NAME')
+    if not (root and name and os.path.isdir(os.path.join(root, name, 'sub'))):
+        root = tempfile.mkdtemp(prefix='verif-c13-')
+        name = 'c13pkg_%d' % os.getpid()
+        os.makedirs(os.path.join(root, name, 'sub'))
+        open(os.path.join(root, name, '__init__.py'), 'w').close()
+        open(os.path.join(root, name, 'sub', '__init__.py'), 'w').close()
+        with open(os.path.join(root, name, 'sub', 'mod.py'), 'w') as f:
+            f.write(_MOD_SRC.format(n=NPATH))
+        os.environ['VERIF_C13_PKG_ROOT'] = root
+        os.environ['VERIF_C13_PKG_NAME'] = name
+        creator = os.getpid()
+
+        def cleanup():
+            if os.getpid() == creator:
+                shutil.rmtree(root, ignore_errors=True)
+        atexit.register(cleanup)
+    if root not in sys.path:
+        sys.path.insert(0, root)
+        importlib.invalidate_caches()
+    return name
+
+
+PKG = ensure_pkg()
+
+
+def forget_pkg():
+    for k in [k for k in sys.modules if k == PKG or k.startswith(PKG + '.')]:
+        del sys.modules[k]
 
 
 class Builder(object):
@@ -781,7 +828,7 @@ class Builder(object):
             return name
         if form == 2:
             _PATH_TARGETS[c] = rec
-            return 'c13.path_fn_%d' % c
+            return '%s.sub.mod.cb_%d' % (PKG, c)
         name = 'prop_%s_%d' % (slot, c)
         setattr(self.Model, name, property(lambda self_, rec=rec: rec()))
         return name
@@ -994,7 +1041,11 @@ class Builder(object):
 
 
 def impl_build(case):
-    return [1, Builder(case, case['A']).run(), Builder(case, case['B']).run()]
+    out = [1]
+    for key in ('A', 'B'):
+        forget_pkg()        # the library has to import the submodule of the dotted path itself
+        out.append(Builder(case, case[key]).run())
+    return out
 
 
 # ====================================================================== comparison
